@@ -302,13 +302,23 @@ fn scenario_c09(stats: &Arc<Mutex<Stats>>) {
     let mut rng = shuttle::rand::thread_rng();
     let k = rng.gen_range(2..=4usize);
     let order: Arc<Mutex<Vec<u8>>> = Arc::new(Mutex::new(vec![]));
-    let mut jobs = vec![];
+    let mut jobs: Vec<(usize, usize, u32, Vec<u8>, u64, Vec<u8>)> = vec![];
     for t in 0..k {
         let hi = rng.gen_range(0..6usize);
         let n = HASHES[hi].2;
         let w = [2u32, 4, 8][rng.gen_range(0..3usize)];
         let mut seed = vec![0u8; n];
         rng.fill_bytes(&mut seed);
+        // sibling keys: same hash and seed as the first task's key, another Winternitz parameter
+        let (hi, w, seed) = match jobs.first() {
+            Some((_, hi0, w0, seed0, _, _)) if rng.gen_range(0..2) == 0 => {
+                let w0: u32 = *w0;
+                let hi0: usize = *hi0;
+                let seed0: &Vec<u8> = seed0;
+                (hi0, if w0 == 8 { 4 } else { 8 }, seed0.clone())
+            }
+            _ => (hi, w, seed),
+        };
         let c0 = rng.gen_range(0..12u64);
         let mut msg = vec![0u8; rng.gen_range(0..80usize)];
         rng.fill_bytes(&mut msg);
